@@ -13,7 +13,13 @@ DT = {'int32': (32, True), 'int64': (64, True), 'uint16': (16, False), 'uint32':
 RULE = ('exhaustive: all assignment vectors of length <= L over the id alphabet {0,2,3,7} x dtypes '
         'int32/int64/uint16/uint32 x with/without spike-id vector (increasing, and unsorted / repeated ids); requested cluster lists unsorted '
         'and partly absent; unsorted lookups; then random long vectors; TemplateModel queries on '
-        'generated datasets. non-trivial = at least two spikes and two distinct ids')
+        'generated datasets. Lookups, requested lists and assignments with large sparse ids: every order of 3 ids out of '
+        '{0, 3, 70, B-1, B} for B on a ladder of magnitudes from 255 to 2^24+5 (powers of two and of ten, +-1), random ids up to '
+        '2*10^7 (the real code is compared with the Lean definition positionsIn where the table model would need millions of '
+        'cells). Sequences: the grouping returned by _spikes_per_cluster is handed to the library\'s own consumers (SpikeSelector '
+        'through spc.get with counts below / above the group sizes, with and without chunk / subset restriction; '
+        '_flatten_per_cluster), then READ AGAIN and recomputed from the same arrays: it must still be the grouping of the '
+        'unchanged assignment vector. non-trivial = at least two spikes and two distinct ids')
 ASSUMPTIONS = ['grouped_mean: integer-valued data so that the sum is exact; the single float division '
                'is compared with the correctly rounded exact quotient (fractions.Fraction)']
 ALPHA = [0, 2, 3, 7]
@@ -26,7 +32,27 @@ def impl(case):
         sc = np.array(case['sc'], dtype=case['dtype'])
         ids = np.array(case['ids'], dtype=np.int64) if case.get('ids') is not None else None
         d = A._spikes_per_cluster(sc, ids)
-        return [[int(k), [int(x) for x in v]] for k, v in d.items()]
+        first = [[int(k), [int(x) for x in v]] for k, v in d.items()]
+        if not case.get('then'):
+            return first
+        # the grouping is used by the library's own consumers (as TemplateModel.save_spikes_subset_waveforms and
+        # EphysAlfCreator do: a SpikeSelector reading it through `spc.get`, _flatten_per_cluster), then read again
+        n_ids = max(len(sc), (int(ids.max()) + 1) if ids is not None and len(ids) else 0)
+        np.random.seed(case.get('rs', 0))
+        sel = A.SpikeSelector(get_spikes_per_cluster=lambda cl: d.get(cl, np.array([], dtype=np.int64)),
+                              spike_times=np.arange(n_ids, dtype=np.float64),
+                              chunk_bounds=np.linspace(0., float(max(n_ids, 1)), 5), n_chunks_kept=2)
+        for stp in case['then']:
+            if stp['k'] == 'select':
+                sub = None if stp.get('subset') is None else np.array(stp['subset'], dtype=np.int64)
+                sel(stp['n'], list(stp['req']), subset_chunks=bool(stp.get('chunks')), subset_spikes=sub)
+            elif stp['k'] == 'flatten':
+                A._flatten_per_cluster(d)
+            else:
+                raise ValueError(stp['k'])
+        after = [[int(k), [int(x) for x in v]] for k, v in d.items()]
+        again = [[int(k), [int(x) for x in v]] for k, v in A._spikes_per_cluster(sc, ids).items()]
+        return dict(first=first, after=after, again=again)
     if op == 'sic':
         return [int(x) for x in A._spikes_in_clusters(np.array(case['sc'], dtype=case['dtype']), case['cl'])]
     if op == 'unique':
@@ -105,6 +131,8 @@ def model_query(case, impl_res):
     if case['op'] == 'spc':
         q['w'], q['signed'] = DT[case['dtype']]
     q.pop('pre_sc', None)
+    q.pop('then', None)
+    q.pop('rs', None)
     if case['op'] == 'sic':
         # requested ids below zero are absent from every (non-negative) assignment vector: they select nothing
         q['cl'] = [c for c in case['cl'] if c >= 0]
@@ -116,7 +144,9 @@ def model_query(case, impl_res):
 def judge(case, impl_res, ans):
     if 'err' in ans:
         return 'MACHINERY: driver error %s' % ans['err']
-    m = ans['ok']['model']
+    m = ans['ok'].get('model')
+    if case['op'] == 'index_of':
+        return judge_index_of(case, impl_res, ans['ok'])
     if case['op'] == 'flatten' and not case['d']:
         # the empty dictionary: the real helper raises ValueError (nothing to concatenate); the model's []
         # is outside the theorem's domain (hypothesis d ≠ [])
@@ -133,8 +163,18 @@ def judge(case, impl_res, ans):
     if op == 'spc':
         if ans['ok']['spec'] != m:
             return 'MACHINERY: model differs from its Lean spec (contradicts the theorem)'
-        if sorted(ok) != m:      # dict: key order is not part of the property
+        first = ok['first'] if isinstance(ok, dict) else ok
+        if sorted(first) != m:      # dict: key order is not part of the property
             return 'SPEC: groups differ from {cluster: its spike indices, or the supplied ids of its spikes, in increasing position order}'
+        if isinstance(ok, dict):
+            # the assignment vector never changed: the grouping the caller holds, and a new grouping of the same
+            # arrays, are still the model's groups after the library's consumers used the first one
+            if sorted(ok['after']) != m:
+                return ('SPEC: the grouping returned by _spikes_per_cluster no longer holds, for each cluster, the increasing '
+                        'array of its spikes once the library\'s own consumers (%s) have used it; the assignment vector is '
+                        'unchanged' % ', '.join(sorted({step_name(x) for x in case['then']})))
+            if sorted(ok['again']) != m:
+                return 'SPEC: grouping the same assignment / id arrays again after the consumers ran gives other groups'
         return None
     if op == 'gmean':
         # the quotients are computed by the Lean model (`groupedMeanQ`, exact); the real code performs one
@@ -161,6 +201,35 @@ def judge(case, impl_res, ans):
     return None
 
 
+def step_name(stp):
+    if stp['k'] == 'flatten':
+        return '_flatten_per_cluster'
+    return 'SpikeSelector(n=%s%s%s)' % (stp['n'], ', chunks' if stp.get('chunks') else '',
+                                        ', subset' if stp.get('subset') is not None else '')
+
+
+def judge_index_of(case, impl_res, a):
+    """`_index_of` against the Lean table model `Np.indexOf` and the Lean definition `positionsIn` (theorem
+    `indexOf_spec`: equal on duplicate-free lookups holding every element).  Lookups with ids in the millions are
+    compared with `positionsIn` only (`spec_only`: the list model of the table is not built)."""
+    arr, lookup = case['arr'], case['lookup']
+    in_domain = len(set(lookup)) == len(lookup) and all(x >= 0 for x in lookup) and set(arr) <= set(lookup)
+    if case.get('spec_only'):
+        if not in_domain:
+            return 'MACHINERY: out-of-domain case generated (spec_only needs the hypotheses of indexOf_spec)'
+    else:
+        if a.get('model') is None:
+            return 'MACHINERY: out-of-domain case generated'
+        if in_domain and a['model'] != a['spec']:
+            return 'MACHINERY: model differs from its Lean spec (contradicts the theorem)'
+    if 'raised' in impl_res:
+        return 'SPEC: real code raised %s (%s) at %s on an in-domain input' % (
+            impl_res['raised'], impl_res['msg'], impl_res['where'])
+    if impl_res['ok'] != (a['spec'] if case.get('spec_only') else a['model']):
+        return 'SPEC: _index_of differs from the position of each element in the lookup as given'
+    return None
+
+
 def nontrivial(case):
     v = case.get('sc') or case.get('l') or case.get('arr') or case.get('d') or []
     if case['op'] == 'flatten':
@@ -178,6 +247,25 @@ def tally(rep, case, impl_res, ans):
             rep.count('gmean: assignment array edited in place after an earlier call')
     if case['op'] == 'sic' and any(c < 0 for c in case['cl']):
         rep.count('sic: negative (absent) requested id')
+    if case['op'] == 'index_of':
+        lk = case['lookup']
+        mx = max(lk) if lk else 0
+        rep.count('index_of: largest lookup id %s' % ('< 2^16' if mx < 65536 else '< 10^6' if mx < 10 ** 6 else '>= 10^6'))
+        if lk != sorted(lk):
+            rep.count('index_of: unsorted lookup%s' % (' with an id >= 10^6' if mx >= 10 ** 6 else ''))
+        if case.get('spec_only'):
+            rep.count('index_of: compared with the Lean definition positionsIn (table model not built)')
+    if case['op'] == 'spc' and case.get('then'):
+        rep.count('spc: grouping read again after %d consumer call(s)' % len(case['then']))
+        sizes = {}
+        for c in case['sc']:
+            sizes[c] = sizes.get(c, 0) + 1
+        for stp in case['then']:
+            rep.count('spc: consumer ' + (step_name(stp) if stp['k'] == 'flatten' or stp['n'] is None else
+                                          step_name(dict(stp, n='k'))))
+            if (stp['k'] == 'select' and stp['n'] and not stp.get('chunks') and stp.get('subset') is None
+                    and any(sizes.get(c, 0) > stp['n'] for c in stp['req'])):
+                rep.count('spc: a group larger than the requested count reaches the sub-selection unrestricted')
     if case['op'] == 'tcounts':
         rep.count('model: spike_clusters.npy %s, template ids stored as %s' % (
             'present' if case['spec'].get('spike_clusters') is not None else 'absent',
@@ -194,6 +282,9 @@ def classify(case, impl_res, ans, why):
 
 
 def shrink(case):
+    for i in range(len(case.get('then') or [])):
+        c = dict(case); c['then'] = case['then'][:i] + case['then'][i + 1:]
+        yield c
     for key in ('sc', 'l', 'arr'):
         if key in case and case['op'] != 'tcounts':
             v = case[key]
@@ -213,6 +304,32 @@ def shrink(case):
                     yield c
 
 
+# magnitudes of the largest id of a lookup: around the powers of two / ten where dtypes, NumPy and the helpers change
+# representation or algorithm.  The list model of the lookup table (max(id)+2 cells, one copy per lookup entry, one
+# traversal per element of arr) costs up to 1 s per case at 10^6: it is built for lookups below TABLE_MODEL_MAX; beyond,
+# the real code is compared with the Lean definition `positionsIn` (equal to the model by theorem indexOf_spec, whose
+# hypotheses the judge re-checks on the case)
+LADDER = [255, 256, 65535, 65536, 10 ** 6 - 1, 10 ** 6, 10 ** 6 + 1, 2 ** 20, 2 ** 21, 2 ** 22 + 1, 10 ** 7, 2 ** 24 + 5]
+TABLE_MODEL_MAX = 200000
+
+
+def consumer_steps(k, present, pool):
+    """A short history of library consumers of one grouping (rotating menu): SpikeSelector calls with counts below and
+    above the group sizes, unrestricted / restricted to the kept chunks / to a subset, requested lists unsorted and
+    partly absent; _flatten_per_cluster."""
+    req = sorted(present, reverse=True) + [5]
+    sel = lambda cnt, chunks=False, subset=None, r=req: dict(k='select', n=cnt, req=r, chunks=chunks, subset=subset)  # noqa
+    menu = [
+        [sel(1)],
+        [sel(None), sel(2)],
+        [dict(k='flatten'), sel(1, chunks=True)],
+        [sel(2, subset=sorted(set(pool[::2])))],
+        [sel(1, r=req[:1]), dict(k='flatten'), sel(100)],
+        [sel(3, chunks=True, subset=sorted(set(pool))), sel(0)],
+    ]
+    return menu[k % len(menu)]
+
+
 def gen(tier, rng):
     q = tier == 'quick'
     L = 6 if q else 8
@@ -228,6 +345,10 @@ def gen(tier, rng):
                 elif k % 3 == 1 and n >= 2:
                     # supplied ids in arbitrary order, with repetitions: never sorted by the helper
                     c['ids'] = [(7 * i + k) % 11 for i in range(n)]
+                if n >= 2 and (k // 4) % 2 == 0:
+                    # ... and the grouping is read again after the library's consumers used it
+                    c['then'] = consumer_steps(k // 8, set(sc), c.get('ids') or list(range(n)))
+                    c['rs'] = k
                 yield c
             if n <= 5:
                 cl = [[7], [3, 0], [5, 2, 7], [9], [2, 2, 0]][k % 5]
@@ -250,6 +371,17 @@ def gen(tier, rng):
     for lookup in itertools.permutations([0, 2, 3, 7, 11], 3):
         for arr in itertools.product(lookup, repeat=3):
             yield dict(p=PID, op='index_of', arr=list(arr), lookup=list(lookup))
+    # every order of three ids out of {0, 3, 70, B-1, B}, B on the ladder of magnitudes (sorted lookups are 1 in 6)
+    k = 0
+    for big in LADDER:
+        for lookup in itertools.permutations([0, 3, 70, big - 1, big], 3):
+            k += 1
+            dt = [d for d in ('int32', 'int64', 'uint32', 'uint16') if d != 'uint16' or big < 65536][k % (4 if big < 65536 else 3)]
+            c = dict(p=PID, op='index_of', arr=[lookup[(i * i + k) % 3] for i in range(5)], lookup=list(lookup),
+                     dtype=dt, lkind=['list', 'array'][(k // 3) % 2])
+            if max(lookup) >= TABLE_MODEL_MAX:
+                c['spec_only'] = True
+            yield c
     for lookup in ([5], [0], [4, 1, 9, 2]):
         yield dict(p=PID, op='index_of', arr=[lookup[0]] * 2, lookup=lookup)
         yield dict(p=PID, op='index_of', arr=[], lookup=lookup)
@@ -272,19 +404,34 @@ def gen(tier, rng):
         n = rng.randrange(2, 400)
         # id range: dense small alphabets, and sparse large ids (NumPy and the helpers switch
         # algorithms on the ratio of the id range to the number of items)
-        R = rng.pick([60, 60, 5000, 60000, 1000000])
+        R = rng.pick([60, 60, 5000, 60000, 1000000, 20000000])
+        t = rng.randrange(4)
+        if t == 2 and R > 1000000:
+            R = rng.pick([60, 5000, 60000, 1000000])    # grouped_mean: the list model of _index_of's table has max(id)+2 cells
         ids = rng.sample(range(0, R), rng.randrange(1, 9))
         dt = rng.pick(dts if R <= 60000 else [d for d in dts if d != 'uint16'])
         if R > 60:
             n = rng.pick([n, rng.randrange(1, 8)])
         sc = [rng.pick(ids) for _ in range(n)]
-        t = rng.randrange(4)
         if t == 0:
             c = dict(p=PID, op='spc', sc=sc, dtype=dt)
             if rng.random() < .5:
                 c['ids'] = sorted(rng.sample(range(5000), n))
                 if rng.random() < .4:
                     rng.shuffle(c['ids'])
+            if rng.random() < .5:
+                c['then'] = []
+                for _ in range(rng.randrange(1, 4)):
+                    if rng.random() < .2:
+                        c['then'].append(dict(k='flatten'))
+                        continue
+                    req = rng.sample(ids, rng.randrange(1, len(ids) + 1)) + rng.sample(range(0, R), rng.randrange(0, 3))
+                    rng.shuffle(req)
+                    c['then'].append(dict(k='select', n=rng.pick([None, 0, 1, 2, 5, 40, 1000]), req=req,
+                                          chunks=rng.random() < .4,
+                                          subset=sorted(rng.sample(range(5000 if 'ids' in c else n), rng.randrange(0, n)))
+                                          if rng.random() < .3 else None))
+                c['rs'] = rng.randrange(10 ** 6)
             yield c
         elif t == 1:
             cl = rng.sample(range(0, R), rng.randrange(1, 8 if R == 60 else 70)) + rng.sample(ids, rng.randrange(0, len(ids) + 1))
@@ -302,5 +449,8 @@ def gen(tier, rng):
             yield c
         else:
             lookup = rng.sample(range(0, max(R, 200)), rng.randrange(1, 30))
-            yield dict(p=PID, op='index_of', arr=[rng.pick(lookup) for _ in range(n)], lookup=lookup,
-                       dtype=rng.pick([d for d in dts if d != 'uint16' or max(lookup) < 60000]), lkind=rng.pick(['list', 'array']))
+            c = dict(p=PID, op='index_of', arr=[rng.pick(lookup) for _ in range(n)], lookup=lookup,
+                     dtype=rng.pick([d for d in dts if d != 'uint16' or max(lookup) < 60000]), lkind=rng.pick(['list', 'array']))
+            if max(lookup) >= TABLE_MODEL_MAX:
+                c['spec_only'] = True
+            yield c
